@@ -1029,4 +1029,17 @@ def setup(repo):
         log(f"setup: native test build rc={rc} {wall:.0f}s")
     finally:
         shutil.rmtree(root, ignore_errors=True)
+    # per-property warm-up hooks (contracts/<ID>/special.py: warm)
+    for prop in sorted(os.listdir(CONTRACTS)):
+        sp = os.path.join(CONTRACTS, prop, "special.py")
+        if os.path.exists(sp):
+            import importlib.util
+            spec = importlib.util.spec_from_file_location("special_" + prop, sp)
+            mod = importlib.util.module_from_spec(spec)
+            spec.loader.exec_module(mod)
+            if hasattr(mod, "warm"):
+                try:
+                    mod.warm(sys.modules[__name__], repo)
+                except Exception as e:
+                    log(f"setup: warm-up of {prop} failed: {e}")
     return 0
